@@ -94,6 +94,7 @@ class Scheduler(object):
         self.pause_count = 0
         self.nested_done = False
         self.exit_seen_in_drain = 0
+        self.cleanup_yields = 0
 
     # -- decisions -----------------------------------------------------------
     def _draw(self, n):
@@ -521,6 +522,21 @@ class Kernel(object):
                 code = pf.get('errno', errno.ENOSPC)
                 raise OSError(code, os.strerror(code), os.path.join(self.root, rel))
 
+    def fs_yield(self, kind):
+        """yield point of the parent inside clean-up code (only when a pool still has live workers)"""
+        if self.in_child or not self.sched_stack:
+            return
+        s = self.sched_stack[-1]
+        p = s.spec.get('cleanup_yields')
+        if p and s.runnable():
+            s.cleanup_yields += 1
+            s.log.append(['cleanup_yield', kind])
+            while True:
+                cands = s.runnable()
+                if not cands or not s._coin(p):
+                    break
+                s.release(s._pick(cands))
+
     def rpc_event(self, method):
         """a request to the multiprocessing.Manager server (lists, dicts, locks shared with workers)"""
         if not self.active:
@@ -911,10 +927,28 @@ def install_hooks():
 
     def iterdir(self):
         if KERNEL.active and KERNEL.under_root(self) is not None:
+            KERNEL.fs_yield('iterdir')
             items = KERNEL.order_listing(list(orig_iterdir(self)))
             return iter(items)
         return orig_iterdir(self)
     pathlib.Path.iterdir = iterdir
+
+    # clean-up yield points of the parent: between listing a directory, unlinking its files and
+    # removing it, workers that are still alive (orphans of a failed pool) may run
+    orig_unlink = pathlib.Path.unlink
+    orig_rmdir = pathlib.Path.rmdir
+
+    def unlink(self, *a, **kw):
+        if KERNEL.active and KERNEL.under_root(self) is not None:
+            KERNEL.fs_yield('unlink')
+        return orig_unlink(self, *a, **kw)
+
+    def rmdir(self):
+        if KERNEL.active and KERNEL.under_root(self) is not None:
+            KERNEL.fs_yield('rmdir')
+        return orig_rmdir(self)
+    pathlib.Path.unlink = unlink
+    pathlib.Path.rmdir = rmdir
 
 
 # ---------------------------------------------------------------------------
